@@ -113,7 +113,7 @@ def shard(p):
             elif law == "power":
                 e1 = V.pick(rng)
                 e2 = rng.choice(classes[e1["dims"]])
-                n = rng.choice([-3, -2, -1, 2, 3])
+                n = rng.choice([-3, -2, -1, 2, 3, -3, -2, -1, 2, 3, 4, -4, 5, -5, 6, -7, 8, -12])      # mostly the stated -3..3, some beyond
                 checks.append((law, ["1 %s^%d to %s^%d" % (e1["word"], n, e2["word"], n), "1 %s to %s" % (e1["word"], e2["word"])],
                                (lambda vs, n=n: None if vs[0][0] == vs[1][0] ** n else "is %s, the factor %s to the power %d is %s" % (vs[0][0], vs[1][0], n, vs[1][0] ** n))))
             elif law == "product":
@@ -125,7 +125,7 @@ def shard(p):
                     if a["key"] in keys or b["key"] in keys or a["key"] == b["key"]:
                         continue
                     keys |= {a["key"], b["key"]}
-                    pw = rng.choice([1, 1, -1, 2, -2])
+                    pw = rng.choice([1, 1, -1, 2, -2, 1, 1, -1, 2, -2, 3, -3, 4, -4, 5, -6])
                     src.append((a, pw)); dst.append((b, pw))
                 if len(src) < 2:
                     continue
